@@ -786,7 +786,13 @@ def build_extra():
     c06.pid = "C10g"
     c06.replay_pid = "C06"
     c06.only_verify = ["Game._run_ball"]
-    return [C, C03.key_removal_set("C10k"), c06, fast_driver_set()]
+    # ... and the key handed out for a PSU notification handler names exactly that handler (the registered wrapper), so
+    # that clearing one rule does not remove the handlers of the other rules on the same switch (C03's AK1)
+    c03 = C03.build()
+    c03.pid = "C10a"
+    c03.replay_pid = "C03"
+    c03.only_verify = ["SwitchController.add_switch_handler_obj"]
+    return [C, C03.key_removal_set("C10k"), c06, fast_driver_set(), c03, control_events_set()]
 
 
 FASTD = "mpf/platforms/fast/fast_driver.py"
@@ -828,3 +834,71 @@ def fast_driver_set():
          modifies=["self.autofire_config", "self.current_driver_config.trigger"], raises={})
     return C
 
+
+
+DM = "mpf/core/device_manager.py"
+
+
+def control_events_set():
+    """machine-wide control events: an undelayed control event calls the device's own method DIRECTLY as the event
+    handler - that method carries the @event_handler relative priority which orders disable (10) before enable (1) on a
+    shared event, so that the rule of the device being disabled is gone before the other device installs its rule for
+    the same switch / coil pair"""
+    C = ContractSet("C10e", "control events keep the handler priorities of the device methods")
+    C.strings = False
+    C.cls("MpfController", fields={})
+    C.cls("EventManager", fields={})
+
+    def add_handler(I, env, a, k):
+        emit(I, "add_handler", kwargs=dict(k), args=list(a))
+        return NONE
+    C.ext("EventManager.add_handler", model=add_handler, trusted_reason="event registration (C01)")
+    C.cls("DelayI", fields={})
+    NEV = 2
+
+    def control_events(I, env, a, k):
+        out = []
+        for i in range(I.ctx.fork(NEV + 1)):
+            out.append(VTuple([VStr(z3.String("ce_event%d" % i)), VOpaque("Fn", z3.Const("ce_method%d" % i, usort("Fn"))),
+                               VInt(z3.Int("ce_delay%d" % i)), VOpaque("Any", z3.Const("ce_dev%d" % i, usort("Any")))]))
+        I.__dict__["c10_ce"] = out
+        for t in out:
+            I.ctx.assume(I.force(t.items[2]).t >= 0)
+        return I.new_list(out, "control_events")
+    C.cls("DeviceManager", file=DM, bases=["MpfController"], fields=dict(
+        machine=ObjS("MachineController", events=ObjS("EventManager"), delay=ObjS("DelayI"),
+                     config=Opaque("Config"))))
+    C.ext("DeviceManager.get_device_control_events", model=control_events,
+          trusted_reason="enumerates (event, method, delay, device) of every *_events setting (generator)")
+
+    def registered_directly(I):
+        ces = I.__dict__.get("c10_ce", [])
+        evs = events_named(I, "add_handler")
+        if len(evs) != len(ces):
+            return VBool(False)
+        this = I.frames[0].env["self"].ref
+        conj = []
+        for t, e in zip(ces, evs):
+            kw = e.args["kwargs"]
+            h = I.force(kw.get("handler", NONE))
+            delay = I.force(t.items[2]).t
+            via_wrapper = h.tag == "fn" and getattr(h, "kind", None) == "bound" and h.obj is this and \
+                h.name == "_control_event_handler"
+            direct = I.eq(h, t.items[1]) if not via_wrapper else z3.BoolVal(False)
+            wrapped_ok = z3.BoolVal(False)
+            if via_wrapper:
+                wrapped_ok = z3.And(I.eq(kw.get("callback", NONE), t.items[1]), I.eq(kw.get("ms_delay", NONE), t.items[2]))
+            conj.append(I.eq(kw.get("event", NONE), t.items[0]))
+            conj.append(z3.If(delay == 0, direct, wrapped_ok))
+        return VBool(z3.And(conj + [z3.BoolVal(True)]))
+    C.helpers["registered_directly"] = registered_directly
+    C.trace_helpers = {"registered_directly"}
+    C.fn("DeviceManager.create_machinewide_device_control_events", params=dict(kwargs=Opaque("Kwargs")),
+         loops={0: LoopSpec(invariant=[], unroll=True)},
+         ensures=[("CE1: one handler per control event; an UNDELAYED one is the device's method itself (its "
+                   "@event_handler priority orders disable before enable on a shared event - a wrapper has none and the "
+                   "handlers would run in config order: two rules for one switch / coil pair, or the enabled device's rule "
+                   "cleared by the late disable); a delayed one goes through the delay wrapper with that method and delay",
+                   "registered_directly()")],
+         modifies=[], raises={}, bounded="BOUNDED: at most %d control events" % NEV)
+    return C
